@@ -50,7 +50,8 @@ func Unsubscribe(chans *ControlChans) {
 	defer func() {
 		recover()
 	}()
-	close(chans.PauseCh)
+	// PauseCh is deliberately left open: a concurrent Pause() may already have picked this subscriber up
+	// and be about to send on it, which would panic on a closed channel (and nobody reads it any more)
 	close(chans.ResumeCh)
 }
 
